@@ -190,15 +190,17 @@ def canary(ctx, trace):
                 picks['tagflip'] = (s, l, 'tag')
             if e.get('op') == 'ref' and e['rel']['ok'] and 'str' not in picks and len(e['rel']['str']) > 2:
                 picks['str'] = (s, l, 'relstr')
+            if e.get('op') == 'print' and e['back']['ok'] and 'back' not in picks:
+                picks['back'] = (s, l, 'back')
             if e.get('op') == 'route' and e['call'] == 'GetTag' and 'route' not in picks:
                 picks['route'] = (s, l, 'route')
             # (a request is only constrained when the arguments were valid: pick one whose path is the plain concatenation)
             if e.get('op') == 'client' and e['sent'] and 'client' not in picks and \
                     e['path'] == [47, 118, 50, 47] + e['repo'] + [47, 109, 97, 110, 105, 102, 101, 115, 116, 115, 47] + e['ref']:
                 picks['client'] = (s, l, 'client')
-        if len(picks) == 4:
+        if len(picks) == 5:
             break
-    if len(picks) < 4:
+    if len(picks) < 5:
         raise vlib.Machinery('canary: no suitable events found (%s)' % sorted(picks))
     for name, (s, l, how) in sorted(picks.items()):
         e = json.loads(l)
@@ -206,6 +208,8 @@ def canary(ctx, trace):
             e['tag'] = not e['tag']
         elif how == 'relstr':
             e['rel']['str'][rnd.randrange(len(e['rel']['str']))] ^= 1
+        elif how == 'back':
+            e['back']['ref'][1] = e['back']['ref'][1] + [97]
         elif how == 'route':
             e['ref'] = e['ref'] + [97]
         elif how == 'client':
@@ -220,8 +224,8 @@ def canary(ctx, trace):
         vlib.write_trace(p0, hdr, [s])
         if not vlib.validate_trace(ctx, MODULE, CFG, p0)['accepted']:
             raise vlib.Machinery('canary %s: the uncorrupted scenario is not accepted' % name)
-    ctx.notes.append('canary: 4 corrupted events (predicate flipped, printed string byte changed, backend argument extended, client path truncated) rejected')
-    ctx.log('canary: 4 corruptions rejected, originals accepted')
+    ctx.notes.append('canary: 5 corrupted events (predicate flipped, printed string byte changed, round-trip repository extended, backend argument extended, client path truncated) rejected')
+    ctx.log('canary: 5 corruptions rejected, originals accepted')
 
 
 def run(ctx):
